@@ -26,6 +26,8 @@ def plan(tier, seed):
     cases = []
     for i in range(8 if not big else 40):
         cases.append({"kind": "loop", "n": 12000 if not big else 40000, "name": NAMES[i % len(NAMES)], "sim_clock": i % 2 == 1, "i": i})
+    # one long process: more orders than any counter padded to 5 digits can number
+    cases.append({"kind": "loop", "n": 130000, "name": "long-running", "sim_clock": False, "i": 99, "all_lengths": True})
     for i in range(3 if not big else 20):
         cases.append({"kind": "threads", "threads": 16, "n": 2500 if not big else 5000, "i": i})
     cases.append({"kind": "separator"})
@@ -113,6 +115,11 @@ def run(case):
             out.v("duplicate-reference", {"threads": False, "sim_clock": case["sim_clock"]}, duplicates=len(refs) - len(set(refs)), example=[r for r in refs if refs.count(r) > 1][:2] if len(refs) < 50000 else None)
         for r in refs[:: max(1, len(refs) // 300)]:
             _check_ref(out, r)
+        if case.get("all_lengths"):
+            longest = max(refs, key=len)
+            out.rule("charset")
+            if len(longest) > 32:
+                out.v("reference-too-long", {"after_many_orders": True}, ref=longest, length=len(longest), index=refs.index(longest))
         out.d("loop:%s:%s:%d:%d" % (case["i"], case["sim_clock"], len(set(refs)), nc))
         out.c("refs", len(set(refs)))
     elif kind == "threads":
